@@ -11,6 +11,7 @@ def allOps : List (String × (V → R V)) :=
   ++ batchingOps
   ++ onPolicyOps
   ++ offPolicyOps
+  ++ tdOps
 
 def dispatch (op : String) (a : V) : R V :=
   match allOps.find? (·.1 == op) with
